@@ -339,6 +339,24 @@ void run_xform_case(Ctx &ctx, int64_t kase, Rng &r, const DomInfo &) {
       s.lhs = g.arrs[0];
       s.a = g.arrs[1];
       pro.push_back(s);
+      if (r.coin()) { // ... immediately updated in one cell and read in another
+        int64_t esz = g.arr_esz[g.arrs[0]];
+        Stmt st;
+        st.kind = S_ARR_STORE;
+        st.lhs = g.arrs[0];
+        st.k = esz;
+        st.e1 = LinExp(esz * r.range(0, 3));
+        st.e3 = LinExp(r.range(10, 20));
+        st.flag = r.chance(2, 3);
+        pro.push_back(st);
+        Stmt ld;
+        ld.kind = S_ARR_LOAD;
+        ld.a = g.arrs[0];
+        ld.k = esz;
+        ld.e1 = LinExp(esz * r.range(4, 6));
+        ld.lhs = -2; // patched below: an output variable
+        pro.push_back(ld);
+      }
     }
     auto &eb = fn.blocks[fn.entry].stmts;
     eb.insert(eb.begin(), pro.begin(), pro.end());
@@ -354,6 +372,18 @@ void run_xform_case(Ctx &ctx, int64_t kase, Rng &r, const DomInfo &) {
     for (size_t i = nout; i < c32.size() && i < nout + 2; ++i) fn.inputs.push_back(c32[i]);
     fn.has_decl = true;
   }
+  for (auto &b : fn.blocks)
+    for (auto it = b.stmts.begin(); it != b.stmts.end();) {
+      if (it->kind == S_ARR_LOAD && it->lhs == -2) {
+        if (fn.outputs.empty()) {
+          it = b.stmts.erase(it);
+          continue;
+        }
+        it->lhs = fn.outputs[0];
+        // nothing in this block may overwrite the loaded output afterwards? (other blocks may: fine)
+      }
+      ++it;
+    }
   InitSpec I = make_init(p, r, ints, bools, true, false, 5);
   {
     Rng r2(r.next());
